@@ -13,10 +13,10 @@ TABLE = {
     "C01": (True, "exploration",
             "runtime monitoring: recorded Sink::matched events and rg stdout vs an executable per-line oracle (differential against the regex engine), seeded generated workloads",
             "Held on the generated (pattern, flags, input) cases described in the evidence: every reported and every unreported line of every case is judged by an independent oracle, through the fast path, the slow path, the incremental reader and the rg binary. Exploration, not proof: reach comes from language-directed input generation.",
-            "Trusts regex-automata as the definition of 'pattern matches'; oracle wraps the pattern per the flag documentation.",
+            "The oracle is regex-automata's PikeVM (plain NFA simulation, none of the optimisations ripgrep's matcher runs on) over the pattern wrapped per the flag documentation; disagreements between that and the optimised engine are classified as the recorded regex-library finding.",
             "DESIGN.md §3 C01"),
     "C02": (True, "exploration",
-            "runtime monitoring: differential comparison of recorded Sink event logs across search strategies (slice / scripted readers with hooked buffer capacity / heap limit / file / mmap / multi-line requested), plus mmap vs no-mmap vs stdin at the CLI and valgrind memcheck in the thorough tier",
+            "runtime monitoring: differential comparison of recorded Sink event logs across search strategies (slice / scripted readers with hooked buffer capacity / heap limit / file / mmap / multi-line requested), each on a fresh or a previously used Searcher (completed, stopped or failed earlier search), plus mmap vs no-mmap vs stdin at the CLI and valgrind memcheck in the thorough tier",
             "Held on the generated (input, configuration, read history, buffer capacity) cases: all strategies delivered event logs identical to search_slice. The evidence counts how many reader legs actually had to roll and to grow their buffer.",
             "Roll buffer capacity is set through the verif-hooks knob (growth policy unchanged); binary detection off.",
             "DESIGN.md §3 C02"),
@@ -41,13 +41,13 @@ TABLE = {
             "Error entries compared only through the loop requirement; same_file_system cannot be exercised across devices in this sandbox (single file system) although its code path runs.",
             "DESIGN.md §3 C06"),
     "C07": (True, "exploration",
-            "runtime monitoring under a controlled scheduler: the ignore verif-hooks yield points park every worker, a seeded policy (uniform / PCT / starvation) releases one at a time; visitor log checked for exactly-once / no-duplicates, hook trace checked for bounded progress and a livelock signature; plus real-thread stress with injected delays, ThreadSanitizer and Miri legs in the thorough tier",
+            "runtime monitoring under a controlled scheduler: the ignore verif-hooks yield points park every worker, a seeded policy (uniform / PCT / starvation) releases one at a time; visitor log checked for exactly-once / no-duplicates, hook trace checked for bounded progress and a livelock signature; plus a systematic sweep (every priority order, a preemption at every hook step, at every pair of steps in the thorough tier, Quit at every visit index, on tiny trees), real-thread stress with injected delays, ThreadSanitizer and Miri legs in the thorough tier",
             "Held on the scheduled interleavings explored (the evidence reports the number of distinct schedules, steals, idle transitions and quit-while-work-queued situations observed): no entry lost or duplicated, every walk ended within the step bound, also with Quit injected at each visit index.",
-            "Liveness restated as bounded progress under fair seeded schedules; hook granularity; not exhaustive over schedules (no model checking).",
+            "Liveness restated as bounded progress under fair seeded schedules; hook granularity; exhaustive only up to preemption bound 1 (quick) / 2 (thorough) on the tiny sweep trees, sampled beyond.",
             "DESIGN.md §3 C07, §5"),
     "C08": (True, "exploration",
-            "runtime monitoring of rg -jN vs rg -j1 on generated trees under perturbed timing (files of very different size, a sleeping --pre on a random subset): outputs parsed into per-file blocks (NUL-delimited paths / heading blocks / JSON begin..end) and compared as multisets, with contiguity, separator and exit-status checks; --sort compared byte for byte across repetitions; TSan binary in the thorough tier",
-            "Held on the generated trees x modes x thread counts x repetitions: every multi-threaded output was a permutation of the single-threaded per-file blocks; the evidence reports how many distinct block orders were actually observed.",
+            "runtime monitoring of rg -jN vs rg -j1 on generated trees under perturbed timing (files of very different size, a sleeping --pre on a random subset): outputs parsed into per-file blocks (NUL-delimited paths / heading blocks / JSON begin..end) and compared as multisets, with contiguity, separator and exit-status checks; trees carry links, hidden files and nested ignore files, command lines carry walk options and up to 20 roots; a --crlf / --null-data heading leg; --sort compared byte for byte across repetitions; TSan binary in the thorough tier",
+            "Held on the generated trees x modes x thread counts x repetitions: every multi-threaded output was a permutation of the single-threaded per-file blocks (apart from one listed known finding: the terminator of the line between files under --crlf / --null-data); the evidence reports how many distinct block orders were actually observed.",
             "The OS scheduler chooses the interleavings; reach comes from size skew and the slow preprocessor, not from controlled scheduling.",
             "DESIGN.md §3 C08"),
     "C09": (True, "exploration",
@@ -66,17 +66,17 @@ TABLE = {
             "The statement quantifies over all lines per pattern; a monitor can refute it with a witness but cannot decide it. The automata-product decision procedure mentioned in the quantifier is a different technique family and deliberately not built; claim = held on the sampled and exhaustively enumerated short lines.",
             "DESIGN.md §3 C11, §5"),
     "C12": (True, "exploration",
-            "runtime differential monitoring: GlobSet::matches / is_match vs the individually compiled GlobMatchers, and each glob vs an independent backtracking matcher written from the documentation, over exhaustively enumerated globs and paths of a small alphabet",
+            "runtime differential monitoring: GlobSet::matches / is_match vs the individually compiled GlobMatchers, each glob vs an independent backtracking matcher written from the documentation, and each glob with an alternate group vs the union of the globs obtained by substituting its branches, over exhaustively enumerated globs and paths of a small alphabet plus literal families (incl. multi-byte characters)",
             "Held on every (glob, path) pair of the enumerated space (all token sequences to the tier's bound x all paths over {a,b,.,/,-,A} to the bound, plus random longer and non-UTF-8 paths): set answers = member answers, compiled glob = documented meaning wherever the documentation is unambiguous.",
             "Oracle 2 is only as good as my reading of the globset documentation; readings the docs leave open are evaluated both ways and skipped when they differ.",
             "DESIGN.md §3 C12"),
     "C13": (True, "exploration",
             "runtime monitoring: flattened Sink event streams of the multi-line strategies and rg -U stdout checked against a whole-input reference model (successive leftmost matches via the regex engine with look-around over the full input, mapped to covered lines, then the C03 grep model)",
             "Held on the generated multi-line cases (patterns crossing lines, anchors and word boundaries next to the terminator, branches that start where the previous match ended, empty matches, dotall, CRLF, inversion, context): reported lines = covered lines, each once, in order.",
-            "Block partition is not compared. Cases where a line's only coverage is an empty match strictly inside its CRLF terminator are skipped as unsettled by the statement.",
+            "Block partition is not compared. Skipped and counted as outside the whole-input reading: a match boundary strictly inside a CRLF terminator, and patterns with a Unicode word boundary on invalid UTF-8 whose verdict depends on how much of the input the regex sees (recorded under C01).",
             "DESIGN.md §3 C13"),
     "C14": (True, "exploration",
-            "runtime monitoring: output bytes of the real Standard printer attached to every search strategy (hooked buffer capacities, scripted read fragmentation) and of the rg binary (implicit/explicit/--binary/stdin, mmap on/off, output modes) checked for NUL bytes, prefix relation with --text results, notices, binary_data coordinates; ASan build in the thorough tier",
+            "runtime monitoring: output bytes of the real Standard printer attached to every search strategy (hooked buffer capacities, scripted read fragmentation) and of the rg binary (implicit/explicit/--binary/stdin, mmap on/off, output modes) (fresh and previously used searchers) checked for NUL bytes, prefix relation with --text results, notices, binary_data coordinates; ASan build in the thorough tier",
             "Held on the generated NUL placements (offset 0, in/after matching lines, 64 KiB boundary, beyond several buffers, last byte) under quit and convert detection for all strategies: no NUL reached the output, printed lines were a prefix of the --text results, warnings/notices appeared exactly when required.",
             "--text output is the reference here (itself judged by C01/C03). Which lines before the first NUL are printed is strategy dependent; only prefix-ness is demanded.",
             "DESIGN.md §3 C14"),
@@ -86,13 +86,13 @@ TABLE = {
             "Files vanishing between listing and open are not covered (cannot be timed from outside); -q leaves stderr unconstrained.",
             "DESIGN.md §3 C15"),
     "C16": (True, "fault_enumeration",
-            "runtime monitoring with fault injection: scripted Sink (false / Err at event k) and scripted Read (error / Interrupted at read j) enumerated over every k and j of each case, logs checked offline for the prefix relation; rg -m N vs the grep model",
+            "runtime monitoring with fault injection: scripted Sink (false / Err at event k) and scripted Read (error / Interrupted at read j) enumerated over every k and j of each case, logs checked offline for the prefix relation; rg -m N (standard and JSON printers) vs the grep model",
             "For each generated case every stopping point of the result stream and every read index is enumerated (fully for logs up to the tier's bound, sampled with boundaries beyond); prefix-ness, exactly-one-finish-after-stop, no-finish-after-error and error propagation held on all of them.",
             "Interrupted reads may be retried or surfaced; byte_count after a stop is unconstrained.",
             "DESIGN.md §3 C16"),
     "C17": (True, "exploration",
             "runtime monitoring: Sink event logs of searches over encoded bytes (every strategy, scripted read histories splitting code units and the BOM, hooked buffer capacities) compared with the log of search_slice over an independent one-shot reference transcoding; rg vs rg-on-transcoding at the CLI",
-            "Held on the generated (text, encoding, label/BOM, fragmentation, capacity) cases apart from two listed known findings that live in the third-party transcoding crates: the event log over the encoded input equals the log over its reference UTF-8 transcoding.",
+            "Held on the generated (text, encoding, label/BOM, fragmentation, capacity) cases apart from three listed known findings that live in the third-party transcoding crates: the event log over the encoded input equals the log over its reference UTF-8 transcoding.",
             "Reference transcoder: own WHATWG UTF-16 decoder, encoding_rs one-shot for windows-1252 / shift_jis.",
             "DESIGN.md §3 C17"),
     "C18": (True, "fault_enumeration",
